@@ -1164,7 +1164,7 @@ func c06r8(rc *core.RC) {
 		var bs *core.ByteSwitch
 		ast.Inspect(fd.Body, func(m ast.Node) bool {
 			if sw, ok := m.(*ast.SwitchStmt); ok && bs == nil {
-				if b, _ := core.EvalByteSwitch(info, sw); b != nil && b.HasSingleton('{') && b.HasSingleton('[') {
+				if b, _ := core.EvalByteSwitch(info, sw); b != nil && b.HasLabel('{') && b.HasLabel('[') {
 					bs = b
 				}
 			}
